@@ -591,4 +591,33 @@ example : commandPick [runName, ['l']] [(runName, ['m',':','C']), (['q'], ['b','
           commandPick [runName, ['l']] [(['q'], ['b','a','d'])] [(['m'], [['C']])] [['l'], ['t']] = .cls (.core ['l']) ∧
           commandPick [runName, ['l']] [(['q'], ['b','a','d'])] [(['m'], [['C']])] [['q']] = .traceback3 := by decide
 
+/-- **precedence order for a task's option** (`Task.init_options`: `cfg_values` = the `[task:NAME]` /
+    `tool.doit.tasks.NAME` / `extra_config['task:NAME']` section merged per key; neither `[GLOBAL]` nor DOIT_CONFIG is
+    read): command line after the task name > environment > doit.cfg > pyproject.toml > API dict > declared default. -/
+theorem precedence_order_task (o : Opt) (occ : List (Bool × Str)) (env : Option Str)
+    (sApi sToml sCfg : List (Str × CfgVal)) :
+    specValue o occ env none (alookup o.name (mergeLayers [sApi, sToml, sCfg])) =
+      layerValue o (keyIn o.name occ env [] [] [] [] sApi sToml sCfg)
+        (winner (keyIn o.name occ env [] [] [] [] sApi sToml sCfg)) ∧
+    winner (keyIn o.name occ env [] [] [] [] sApi sToml sCfg) ∈
+      [Layer.cmdline, .environ, .secCfg, .secToml, .secApi, .declared] := by
+  have hm : ∀ c : List (Str × CfgVal), mergeCfg [] c = c := by
+    intro c; simp [mergeCfg, alookup]
+  have h6 : sixLayers [] [] [] sApi sToml sCfg = mergeLayers [sApi, sToml, sCfg] := by
+    simp [sixLayers, mergeLayers, List.foldl, hm]
+  refine ⟨?_, ?_⟩
+  · have h := precedence_order o occ env [] [] [] [] sApi sToml sCfg
+    rw [h6] at h
+    simpa [alookup] using h
+  · have key : ∀ k : KeyIn, k.dodo = none → k.globCfg = none → k.globToml = none → k.globApi = none →
+        winner k ∈ [Layer.cmdline, .environ, .secCfg, .secToml, .secApi, .declared] := by
+      intro k h1 h2 h3 h4
+      obtain ⟨occ, env, dodo, a1, a2, a3, g1, g2, g3⟩ := k
+      simp only at h1 h2 h3 h4
+      subst h1 h2 h3 h4
+      by_cases h0 : occ = [] <;> cases env <;> cases a1 <;> cases a2 <;> cases a3 <;> simp [winner, cfgWinner, h0]
+    exact key _ rfl rfl rfl rfl
+
+example : winner (keyIn ['p'] [] none [] [] [] [] [(['p'], .raw ['a'])] [(['p'], .raw ['t'])] []) = .secToml := by decide
+
 end DoitModel.C16
